@@ -276,15 +276,15 @@ def colarg(ex, s, default_alias):
 CMPOPS = {'EQ': '==', 'NEQ': '!=', 'GT': '>', 'GTE': '>=', 'LT': '<', 'LTE': '<='}
 
 
-@pat(r'^entgo\.io/ent/dialect/sql\.Field(EQ|NEQ|GT|GTE|LT|LTE)\[')
+@pat(r'^entgo\.io/ent/dialect/sql\.Field(EQ|NEQ|GT|GTE|LT|LTE)(\[|$)')
 def sql_fieldcmp(ex, args, name):
-    op = re.match(r'.*\.Field(\w+?)\[', name).group(1)
+    op = re.match(r'.*\.Field([A-Z]+)', name).group(1)
     return P('cmp', args[0], CMPOPS[op], args[1])
 
 
-@pat(r'^entgo\.io/ent/dialect/sql\.Field(In|NotIn)\[')
+@pat(r'^entgo\.io/ent/dialect/sql\.Field(In|NotIn)(\[|$)')
 def sql_fieldin(ex, args, name):
-    neg = '.FieldNotIn[' in name
+    neg = '.FieldNotIn' in name
     return P('in', args[0], list(args[1].items()) if args[1] is not None else [], neg)
 
 
@@ -317,7 +317,11 @@ def sql_andor_preds(ex, args, name):
 
 @pat(r'^entgo\.io/ent/dialect/sql\.NotPredicates\[')
 def sql_not_preds(ex, args, name):
-    return P('not', args[0])
+    p = args[0]
+    if isinstance(p, Slice):
+        its = list(p.items())
+        p = its[0] if len(its) == 1 else P('and', its)
+    return P('not', p)
 
 
 @intr('entgo.io/ent/dialect/sql.And')
@@ -396,6 +400,8 @@ def sql_sel_distinct(ex, args, name):
 @intr('(*entgo.io/ent/dialect/sql.Selector).Join', '(*entgo.io/ent/dialect/sql.Selector).LeftJoin')
 def sql_sel_join(ex, args, name):
     s, t = args
+    if isinstance(t, Iface):
+        t = t.v
     if not isinstance(t, Table):
         raise Unsupported('join with %r' % (t,))
     s.pending_join = ('left' if name.endswith('LeftJoin') else 'inner', t)
@@ -859,6 +865,10 @@ class Builder(Opaque):
         self.lock = False
         self.unique = None
 
+    def go_fieldaddr(self, ex, i, ins=None):
+        # XSelect embeds *XQuery: promoted methods reach the same builder
+        return Ptr(Cell(self), 'v')
+
 
 BUILDER_RX = re.compile(r'^\(\*go\.6river\.tech/mmmbbb/ent\.(Delivery|Message|Snapshot|Subscription|Topic)'
                         r'(Client|Query|Select|UpdateOne|Update|CreateBulk|Create|DeleteOne|Delete|Mutation)\)\.(\w+)$')
@@ -1136,13 +1146,22 @@ def load_edges(ex, b, ents_rows):
             for entp, r in ents_rows:
                 found = None
                 if r.isnull(fkcol) is not True:
+                    pairs = []
                     for t in db.t[target]:
                         c = And(t.exists, Not(r.isnull(fkcol)), ex.eq(r.v[fkcol], t.v['id']))
                         if opts:
                             c = And(c, row_matches(ex, db, target, t, edge_opt_preds(ex, db, target, opts), db.schema.table[target]))
-                        if ex.branch(c):
-                            found = t
-                            break
+                        if c is False:
+                            continue
+                        pairs.append((c, t))
+                    if ex.xp.merge_single_row:
+                        if pairs and ex.branch(Or(*[c for c, _ in pairs])):
+                            found = merge_rows(ex, db, target, pairs)
+                    else:
+                        for c, t in pairs:
+                            if ex.branch(c):
+                                found = t
+                                break
                 edges = ex.getf(entp, 'Edges')
                 es = entp.get().f[ex.struct_field_index(entp.get().t, 'Edges')]
                 es.f[ex.struct_field_index(es.t, edge)] = entity_from_row(ex, db, target, found) if found is not None else None
@@ -1174,6 +1193,60 @@ def edge_opt_preds(ex, db, target, opts):
     return qb.preds
 
 
+def merge_rows(ex, db, e, pairs):
+    """virtual Row equal to the first row whose condition holds (pairs: [(cond,row)])"""
+    if len(pairs) == 1:
+        return pairs[0][1]
+    v, null = {}, {}
+    last = pairs[-1][1]
+    for c in db.schema.ent[e]:
+        val = last.v[c.name]
+        nl = last.isnull(c.name)
+        for cond, r in reversed(pairs[:-1]):
+            if c.kind == 'uuidlist':
+                if len(r.v[c.name]) != len(val):
+                    raise Unsupported('merge of id lists of different length')
+            val = Ite(cond, r.v[c.name], val)
+            nl = Ite(cond, r.isnull(c.name), nl)
+        v[c.name] = val
+        if c.nullable:
+            null[c.name] = nl
+    return Row(e, True, v, null, -1)
+
+
+def pick_one(ex, db, b, sel, cands, only):
+    """First/Only without materialising which row it is: returns (row|None, err)"""
+    e = b.e
+    alias = sel.root.alias
+    conds = [c for c, _ in cands]
+    if not cands or not ex.branch(Or(*conds)):
+        return None, not_found(ex, e)
+    if only and len(cands) > 1:
+        two = Or(*[And(conds[i], conds[j]) for i in range(len(conds)) for j in range(i + 1, len(conds))])
+        if ex.branch(two):
+            return None, not_singular(ex, e)
+    order = list(b.order) + list(sel.order)
+    rows = [ctx[alias] for _, ctx in cands]
+    if order and len(cands) > 1 and not only:
+        if len(order) != 1:
+            raise Unsupported('First with multi-column order')
+        o = order[0]
+        col = o.col if isinstance(o.col, str) else o.col.col
+        best = []
+        for i, (ci, ri) in enumerate(zip(conds, rows)):
+            better = []
+            for j, (cj, rj) in enumerate(zip(conds, rows)):
+                if i == j:
+                    continue
+                a, bb = ri.v[col], rj.v[col]
+                strictly = ex.binop('>', bb, a, 'int', 'bool') if o.desc else ex.binop('<', bb, a, 'int', 'bool')
+                tie = And(ex.eq(a, bb), j < i)
+                better.append(And(cj, Or(strictly, tie)))
+            best.append((And(ci, Not(Or(*better))), ri))
+        return merge_rows(ex, db, e, best), None
+    return merge_rows(ex, db, e, list(zip(conds, rows))), None
+
+
 def query_terminal(ex, b, meth, a):
     db = b.db
     e = b.e
@@ -1202,6 +1275,18 @@ def query_terminal(ex, b, meth, a):
                 return err
             zero = {'All': Slice(None, 0, 0, 0), 'IDs': Slice(None, 0, 0, 0), 'First': None, 'Only': None, 'OnlyID': 0, 'FirstID': 0}[meth]
             return (zero, err)
+        if meth in ('First', 'FirstID', 'Only', 'OnlyID') and ex.xp.merge_single_row:
+            sel = build_selector(ex, db, e, b.preds)
+            if not sel.distinct:
+                cands = select_candidates(ex, db, sel)
+                row, perr = pick_one(ex, db, b, sel, cands, meth.startswith('Only'))
+                if perr is not None:
+                    return ((None if meth in ('First', 'Only') else 0), perr)
+                if meth in ('FirstID', 'OnlyID'):
+                    return (row.v['id'], None)
+                ep = entity_from_row(ex, db, e, row)
+                load_edges(ex, b, [(ep, row)])
+                return (ep, None)
         if meth in ('First', 'FirstID'):
             b.limit = 1
         if meth in ('Only', 'OnlyID'):
@@ -1598,3 +1683,4 @@ def install(xp, prog):
     prog._schema = xp.schema
     xp.schema.by_pkg = {e.lower(): e for e in ENTITIES}
     xp.unordered_limit_any = True
+    xp.merge_single_row = True
